@@ -215,8 +215,17 @@ where
                 }
             },
             Err(fail) => {
-                out.stats.inc("runs_whose_process_died");
-                out.stats.blobs.push((u64::MAX - i, fail.describe().into_bytes()));
+                // a panic whose site is in the harness, or a broken pipe / fork, is a harness
+                // error; everything else that kills a run's process is a violation
+                let harness = matches!(&fail, crate::isolate::ChildFailure::Harness(_) | crate::isolate::ChildFailure::Exit(_))
+                    || matches!(&fail, crate::isolate::ChildFailure::Panic { in_repo: false, .. });
+                if harness {
+                    out.stats.inc("harness.run_failed");
+                    out.stats.notes.insert(format!("run {}: {:?}", i, fail));
+                } else {
+                    out.stats.inc("runs_whose_process_died");
+                    out.stats.blobs.push((u64::MAX - i, fail.describe().into_bytes()));
+                }
             }
         }
     }
@@ -348,6 +357,10 @@ impl Report {
         }
         if self.stats.counters.get("harness.undecodable_run_result").copied().unwrap_or(0) > 0 {
             eprintln!("HARNESS-ERROR: some run results could not be decoded");
+            harness_error = true;
+        }
+        if self.stats.counters.get("harness.run_failed").copied().unwrap_or(0) > 0 {
+            eprintln!("HARNESS-ERROR: runs failed inside the harness: {:?}", self.stats.notes);
             harness_error = true;
         }
         self.violations.sort_by_key(|v| v.run);
